@@ -58,14 +58,16 @@ func C07MerkleValue(enc []byte) []byte {
 	return Blake256(enc)
 }
 
-// C07Encode returns the encoding of n and the offsets of its structural bytes (header bytes,
+// C07Encode returns the encoding of n and the offsets of its structural bytes (first two and last two header bytes,
 // first and last partial-key byte, bitmap bytes, every compact length prefix byte, first byte of
 // the value and of every child reference, last byte).
 func C07Encode(n C07Node) (enc []byte, marks []int) {
 	mark := func() { marks = append(marks, len(enc)) }
 	h := C07Header(n)
-	for range h {
-		mark()
+	for i := range h {
+		if i < 2 || i >= len(h)-2 { // the inner bytes of a long length run are all 255 and alike
+			mark()
+		}
 		enc = append(enc, 0)
 	}
 	copy(enc, h)
